@@ -68,6 +68,9 @@ func main() {
 
 	if report {
 		printReport(res)
+		if len(os.Args) > 2 {
+			a.printPaths(os.Args[2])
+		}
 
 		return
 	}
@@ -87,8 +90,39 @@ func main() {
 	}
 
 	s := res.Summary
-	fmt.Printf("c05 facts: %d lock classes, %d guarded fields, %d access sites (%d rows, %d undisciplined of which %d known), %d edges, %d functions\n",
-		s.LockClasses, s.GuardedFields, s.AccessSites, s.AccessRows, s.Undisciplined, s.KnownUndisciplined, s.Edges, s.Functions)
+	msg := fmt.Sprintf("c05 facts: %d lock classes, %d guarded fields, %d access sites (%d rows, %d undisciplined of which %d known), %d edges (+%d known bad), %d functions",
+		s.LockClasses, s.GuardedFields, s.AccessSites, s.AccessRows, s.Undisciplined, s.KnownUndisciplined, s.Edges, s.KnownEdges, s.Functions)
+	// name what will make the Lean obligations fail
+	var bad []string
+	for _, row := range res.Rows {
+		if !row.OK && row.Known == "" {
+			kind := "read"
+			if row.Write {
+				kind = "write"
+			}
+			bad = append(bad, fmt.Sprintf("UNDISCIPLINED %s of %s in %s at %s (held shared %v excl %v)", kind, row.FieldName, row.Func, row.Pos[0], lockNames(res, row.HeldShared), lockNames(res, row.HeldExcl)))
+		}
+	}
+	for _, e := range res.Edges {
+		if res.Locks[e.From].Rank >= res.Locks[e.To].Rank {
+			bad = append(bad, fmt.Sprintf("LOCK-ORDER CYCLE edge %s -> %s at %s", res.Locks[e.From].Name, res.Locks[e.To].Name, e.Pos[0]))
+		}
+	}
+	if len(bad) > 6 {
+		bad = append(bad[:6], fmt.Sprintf("… and %d more (build/C05/facts.json)", len(bad)-6))
+	}
+	if len(bad) > 0 {
+		msg += " ;; " + strings.Join(bad, " ;; ")
+	}
+	fmt.Println(msg)
+}
+
+func lockNames(r *result, ids []int) (names []string) {
+	for _, id := range ids {
+		names = append(names, r.Locks[id].Name)
+	}
+
+	return names
 }
 
 // ---------------------------------------------------------------- output model
@@ -117,12 +151,16 @@ type rowOut struct {
 	Known      string   `json:"known,omitempty"`
 	OK         bool     `json:"disciplined"`
 	Pos        []string `json:"pos"`
+	Paths      []string `json:"paths"`
 }
 
 type edgeOut struct {
 	From int      `json:"from"`
 	To   int      `json:"to"`
 	Pos  []string `json:"pos"`
+	// Known names the finding this edge belongs to (a reported lock-order
+	// defect of the tree); known edges are kept out of the rank certificate.
+	Known string `json:"known,omitempty"`
 }
 
 type exemptOut struct {
@@ -140,6 +178,8 @@ type summary struct {
 	Undisciplined      int `json:"undisciplined_rows"`
 	KnownUndisciplined int `json:"known_undisciplined_rows"`
 	Edges              int `json:"lock_order_edges"`
+	KnownEdges         int `json:"known_bad_edges"`
+	StaleKnown         int `json:"stale_known_entries"`
 	RankCycle          int `json:"edges_violating_rank"`
 	Functions          int `json:"functions_analysed"`
 	ExemptFields       int `json:"exempt_fields"`
@@ -147,6 +187,7 @@ type summary struct {
 	Unresolved         int `json:"unresolved_calls_under_lock"`
 	FreshSkipped       int `json:"accesses_on_fresh_objects"`
 	InitSkipped        int `json:"accesses_in_init_functions"`
+	AddrTaken          int `json:"address_taken_sites_not_followed"`
 }
 
 type result struct {
@@ -156,12 +197,21 @@ type result struct {
 	Fields     []fieldOut        `json:"fields"`
 	Rows       []rowOut          `json:"rows"`
 	Edges      []edgeOut         `json:"edges"`
+	KnownEdges []edgeOut         `json:"known_edges"`
+	StaleKnown []string          `json:"stale_known_entries"`
+	KnownCycle []int             `json:"known_cycle"`
 	Exempt     []exemptOut       `json:"exempt"`
 	InitFuncs  map[string]string `json:"init_functions"`
 	InitOnly   []string          `json:"init_only_functions"`
 	Unresolved []string          `json:"unresolved_calls_under_lock"`
 	Known      []cfgKnown        `json:"known_findings"`
 	EntryHeld  map[string]string `json:"functions_expecting_locks"`
+	// LaterCallbacks: callees given a function literal that is analysed as
+	// running later, with none of the caller's locks held.
+	LaterCallbacks map[string]int `json:"callees_with_deferred_function_literals"`
+	// DynamicCalls: calls through function values that are not resolved to a
+	// target (their callees' lock acquisitions are not seen).
+	DynamicCalls map[string]int `json:"unresolved_dynamic_calls"`
 }
 
 func intsLean(xs []int) string {
@@ -219,7 +269,17 @@ func renderLean(r *result) string {
 		}
 		fmt.Fprintf(&b, "  (%d, %d)%s  -- %s\n", e.From, e.To, sep, e.Pos[0])
 	}
-	b.WriteString("]\n\nend AGH.Gen.C05\n")
+	b.WriteString("]\n\n/-- lock-order edges that are reported findings (kept out of `edges`) -/\ndef knownEdges : List (Nat × Nat) := [\n")
+	for i, e := range r.KnownEdges {
+		sep := ","
+		if i == len(r.KnownEdges)-1 {
+			sep = ""
+		}
+		fmt.Fprintf(&b, "  (%d, %d)%s  -- %s %s\n", e.From, e.To, sep, e.Known, e.Pos[0])
+	}
+	b.WriteString("]\n\n/-- a cycle of `edges ++ knownEdges` through a known edge (empty if there is none) -/\n")
+	fmt.Fprintf(&b, "def knownCycle : List Nat := %s\n", intsLean(r.KnownCycle))
+	b.WriteString("\nend AGH.Gen.C05\n")
 
 	return b.String()
 }
@@ -232,13 +292,18 @@ func printReport(r *result) {
 	fmt.Println("== undisciplined rows")
 	for _, row := range r.Rows {
 		if !row.OK {
-			fmt.Printf("  %s %s write=%v shared=%v excl=%v known=%q %s\n", row.Func, row.FieldName, row.Write, row.HeldShared, row.HeldExcl, row.Known, strings.Join(row.Pos, " "))
+			fmt.Printf("  %s %s write=%v shared=%v excl=%v known=%q %s paths=%v\n", row.Func, row.FieldName, row.Write, row.HeldShared, row.HeldExcl, row.Known, strings.Join(row.Pos, " "), row.Paths)
 		}
 	}
 	fmt.Println("== edges")
 	for _, e := range r.Edges {
 		fmt.Printf("  %s -> %s  %s\n", r.Locks[e.From].Name, r.Locks[e.To].Name, strings.Join(e.Pos, " "))
 	}
+	fmt.Println("== known bad edges")
+	for _, e := range r.KnownEdges {
+		fmt.Printf("  %s -> %s  [%s] %s\n", r.Locks[e.From].Name, r.Locks[e.To].Name, e.Known, strings.Join(e.Pos, " "))
+	}
+	fmt.Println("== stale known entries:", r.StaleKnown)
 	fmt.Println("== exempt fields")
 	for _, e := range r.Exempt {
 		fmt.Printf("  %s: %s (sites %d, writes outside init %d)\n", e.Field, e.Reason, e.Sites, e.Writes)
@@ -255,6 +320,14 @@ func printReport(r *result) {
 	sort.Strings(keys)
 	for _, k := range keys {
 		fmt.Printf("  %s: %s\n", k, r.EntryHeld[k])
+	}
+	fmt.Println("== callees whose function-literal arguments are analysed as running later (no locks)")
+	for k, v := range r.LaterCallbacks {
+		fmt.Printf("  %s  x%d\n", k, v)
+	}
+	fmt.Println("== unresolved dynamic calls (all)")
+	for k, v := range r.DynamicCalls {
+		fmt.Printf("  %s x%d\n", k, v)
 	}
 	fmt.Println("== init-only functions")
 	for _, f := range r.InitOnly {
